@@ -430,12 +430,12 @@ def run(fx, rep, tier):
         rep.count(k, v)
     # a fact is found only if the record the index stores decodes in Db::lookup: the decoders of Constant, Compound,
     # Derived and Rational are the inverses of the encoders that wrote it (seeded C16-16: Derived's identifier read as i32)
-    rep.rule("C16-R10", "the decoders Db::lookup runs on a stored record (Constant, Compound, State, Derived, Rational) are the "
+    rep.rule("C16-R11", "the decoders Db::lookup runs on a stored record (Constant, Compound, State, Derived, Rational) are the "
                         "inverses of the encoders that wrote it - shared with C17-R2")
     sub = type(rep)(rep.prop, rep.tier)
     c17.r2_impl_pairs(facts, sub)
     for o in sub.obls:
-        o["rule"] = "C16-R10"
+        o["rule"] = "C16-R11"
         rep.obls.append(o)
     for k, v in sub.analysed.items():
         rep.count(k, v)
